@@ -626,6 +626,15 @@ class SequenceEncoder(AbstractItemEncoder):
                         LOG('not encoding OPTIONAL component %r' % (namedType,))
                     continue
 
+                defaultValue = namedType.asn1Object
+
+                if (namedType.isDefaulted and
+                        not isinstance(component, base.Asn1Item) and
+                        isinstance(defaultValue, base.SimpleAsn1Type)):
+                    # compare like with like: any Python value the type
+                    # accepts may spell the default (octets for a text string)
+                    component = defaultValue.clone(component)
+
                 if namedType.isDefaulted and component == namedType.asn1Object:
                     if LOG:
                         LOG('not encoding DEFAULT component %r' % (namedType,))
